@@ -238,6 +238,10 @@ def gen_specs(tier, seed):
         ["assign", "a", None, ["**", V("b"), V("c")], [], True],
         ["assign", "a", None, ["/", V("b"), V("c")], [], True],
         ["assign", "arr", V("i"), V("a"), [["i", V("lo"), ["+", V("lo"), C(2)]]], V("<cond>c")],
+        # bounds that name the statement's own / an inner counter (read from the incoming store)
+        ["assign", "s", None, ["+", V("s"), C(1)], [["i", C(0), V("j")], ["j", C(0), C(2)]], True],
+        ["assign", "s", None, ["+", V("s"), C(1)], [["i", C(0), V("i")]], True],
+        ["assign", "arr", C(0), V("a"), [["i", V("j"), C(2)], ["j", C(0), V("i")]], True],
     ]
     ncur = len(specs)
     nrand = 600 if tier == "quick" else 6000
@@ -260,7 +264,7 @@ def gen_specs(tier, seed):
                 nl = rng.choice([1, 1, 2])
                 for li in range(nl):
                     lo = rng.choice([C(0), V("lo"), C(1)])
-                    hi = rng.choice([V("n"), C(2), ["+", V("n"), C(1)], V("m")])
+                    hi = rng.choice([V("n"), C(2), ["+", V("n"), C(1)], V("m"), V("j2"), V("i")])
                     loops.append([["i", "j2"][li], lo, hi])
             specs.append(["assign", name, idx, g.num(depth), loops, cond])
         elif r < 0.8:
